@@ -44,11 +44,36 @@ class Tr:
             if e.id in self.lists:
                 return (e.id, "strlist")
             raise Unsupported(f"unknown name {e.id}")
+        if isinstance(e, ast.Attribute) and isinstance(e.value, ast.Name) and e.value.id == "self":
+            k = "self." + e.attr
+            if k in self.env:
+                return (e.attr, self.env[k])
+            raise Unsupported(f"unknown attribute {k}")
+        if isinstance(e, ast.JoinedStr):
+            parts = []
+            for p in e.values:
+                if isinstance(p, ast.Constant) and isinstance(p.value, str):
+                    parts.append(q(p.value))
+                elif isinstance(p, ast.FormattedValue) and p.conversion == -1 and p.format_spec is None:
+                    c, t = self.expr(p.value)
+                    if t != "str":
+                        raise Unsupported("f-string part of type " + t)
+                    parts.append(c)
+                else:
+                    raise Unsupported("f-string part")
+            return ("(" + " ++ ".join(parts or ['""']) + ")", "str")
         if isinstance(e, (ast.List, ast.Tuple, ast.Set)):
             parts = [self.expr(x) for x in e.elts]
+            if isinstance(e, ast.List) and len(parts) == 1 and parts[0][1] == "key":
+                return ("[key_as_str " + parts[0][0] + "]", "strlist")   # [x] where x was tested to be a str
             if all(t == "str" for _, t in parts):
                 return ("[" + "; ".join(c for c, _ in parts) + "]", "strlist")
             raise Unsupported("non-string list")
+        if isinstance(e, ast.Call) and isinstance(e.func, ast.Name) and e.func.id == "isinstance" and len(e.args) == 2 and isinstance(e.args[1], ast.Name):
+            c, t = self.expr(e.args[0])
+            if t == "key" and e.args[1].id in ("str", "list"):
+                return (f"(key_is_{e.args[1].id} {c})", "bool")
+            raise Unsupported("isinstance")
         if (isinstance(e, ast.Call) and isinstance(e.func, ast.Attribute) and e.func.attr == "get"
                 and isinstance(e.func.value, ast.Name) and e.func.value.id in self.dicts and not e.keywords):
             d = e.func.value.id
@@ -82,6 +107,10 @@ class Tr:
                 return (f"(is_none {l})", "bool")
             if isinstance(op, ast.IsNot) and rt == "none" and lt.startswith("opt"):
                 return (f"(negb (is_none {l}))", "bool")
+            if isinstance(op, ast.Is) and rt == "none" and lt == "key":
+                return (f"(key_is_none {l})", "bool")
+            if isinstance(op, ast.IsNot) and rt == "none" and lt == "key":
+                return (f"(negb (key_is_none {l}))", "bool")
             if isinstance(op, (ast.Eq, ast.NotEq)) and lt == rt == "str":
                 c = f"(String.eqb {l} {r})"
                 return (c if isinstance(op, ast.Eq) else f"(negb {c})", "bool")
@@ -99,6 +128,9 @@ class Tr:
             raise Unsupported(f"compare {ast.dump(op)} {lt} {rt}")
         if isinstance(e, ast.BoolOp):
             parts = [self.expr(v) for v in e.values]
+            if isinstance(e.op, ast.Or) and len(parts) == 2 and {parts[0][1], parts[1][1]} <= {"key", "optstr"}:
+                lift = lambda ct: ct[0] if ct[1] == "key" else f"(key_of_optstr {ct[0]})"
+                return (f"(key_or {lift(parts[0])} {lift(parts[1])})", "key")
             if not all(t == "bool" for _, t in parts):
                 raise Unsupported("boolop on non-bool")
             f = "orb" if isinstance(e.op, ast.Or) else "andb"
@@ -137,12 +169,25 @@ class Tr:
         if isinstance(s, ast.Return):
             if s.value is None:
                 raise Unsupported("bare return")
+            if rettype == "keypair":
+                if not (isinstance(s.value, ast.Tuple) and len(s.value.elts) == 2):
+                    raise Unsupported("keypair return")
+                (a, at), (b, bt) = self.expr(s.value.elts[0]), self.expr(s.value.elts[1])
+                a = {"key": a, "optstr": f"(key_of_optstr {a})", "none": "KNone"}.get(at)
+                b = {"optstr": b, "none": "None"}.get(bt)
+                if a is None or b is None:
+                    raise Unsupported("keypair component types")
+                return f"({a}, {b})"
             c, t = self.expr(s.value)
+            if t == "key" and rettype == "strlist":
+                return f"(key_as_list {c})"      # reached only after the None / str tests
             if t != rettype:
                 raise Unsupported(f"return type {t}, expected {rettype}")
             return c
         if isinstance(s, ast.If):
             c, t = self.expr(s.test)
+            if t == "key":
+                c, t = f"(key_truthy {c})", "bool"
             if t != "bool":
                 raise Unsupported("non-bool test")
             saved = dict(self.env)
@@ -199,12 +244,17 @@ def find_assign(mod, name):
     return hits[0]
 
 
-def function_def(fn, coqname, argtypes, rettype, dicts, lists=None):
+def function_def(fn, coqname, argtypes, rettype, dicts, lists=None, selfattrs=None):
     args = [a.arg for a in fn.args.args if a.arg != "self"]
     if fn.args.vararg or fn.args.kwarg or fn.args.kwonlyargs or len(args) != len(argtypes):
         raise Unsupported(f"{fn.name}: signature")
-    tr = Tr(dict(zip(args, argtypes)), dicts, lists)
+    env = dict(zip(args, argtypes))
+    env.update(selfattrs or {})
+    tr = Tr(env, dicts, lists)
     body = tr.body(fn.body, rettype)
-    cty = {"str": "string", "int": "Z", "bool": "bool", "optint": "option Z"}
+    cty = {"str": "string", "int": "Z", "bool": "bool", "optint": "option Z", "optstr": "option string", "key": "pykey",
+           "strlist": "list string", "keypair": "(pykey * option string)%type"}
+    args = list(args) + [k[5:] for k in (selfattrs or {})]
+    argtypes = list(argtypes) + list((selfattrs or {}).values())
     binders = " ".join(f"({a} : {cty[t]})" for a, t in zip(args, argtypes))
     return f"Definition {coqname} {binders} : {cty[rettype]} :=\n  {body}."
